@@ -41,8 +41,12 @@ def moveToEnd (i : Iter) : Iter := { i with off := i.lim, addNext := 0, t := tag
     array is at least as long as every view derived from it. -/
 @[inline] def rdT (pj : PJ) (k : Nat) : Res UInt64 := rd pj.tape k
 
-/-- The NOP-skipping loop of `Advance`. Returns the cursor positioned after the first live word
-    (or at the end). -/
+/-- The NOP-skipping loop of `Advance`, started at tape offset `off` (= `i.off` after `i.off += i.addNext`).
+    Returns the cursor positioned after the first live word (`true`), or at the end (`false`).
+    As in the Go code every iteration overwrites `i.t` and `i.cur` with the tag and payload of the word it
+    has just read, so the registers are threaded through the recursion: an iterator that runs off the end of
+    its view after skipping NOP words keeps the *last NOP's skip count* in `cur`. (The offset is the explicit
+    argument; `i.off` itself is not read.) -/
 def advanceLoop (pj : PJ) (i : Iter) (off : Nat) : Res (Iter × Bool) :=
   if h : off >= i.lim then .ok ({ i with off := off, addNext := 0, t := tagEnd }, false)
   else do
@@ -51,10 +55,10 @@ def advanceLoop (pj : PJ) (i : Iter) (off : Nat) : Res (Iter × Bool) :=
     let cur := payloadOf v
     if t == tagNop then
       if cur == 0 then .ok (moveToEnd { i with off := off + 1, cur := cur, t := t }, false)
-      else advanceLoop pj i (off + 1 + (cur.toNat - 1))
+      else advanceLoop pj { i with cur := cur, t := t } (off + 1 + (cur.toNat - 1))
     else .ok ({ i with off := off + 1, cur := cur, t := t }, true)
 termination_by i.lim - off
-decreasing_by omega
+decreasing_by simp_wf; omega
 
 /-- `Advance()` returns the `Type`. -/
 def advance (pj : PJ) (i : Iter) : Res (Iter × UInt8) := do
@@ -66,7 +70,7 @@ def advance (pj : PJ) (i : Iter) : Res (Iter × UInt8) := do
     if i''.addNext < 0 then .ok (i''.moveToEnd, typeNone)
     else .ok (i'', tagToType i''.t)
 
-/-- The loop of `AdvanceInto`. -/
+/-- The loop of `AdvanceInto`; registers threaded as in `advanceLoop`. -/
 def advanceIntoLoop (pj : PJ) (i : Iter) (off : Nat) : Res (Iter × Bool) :=
   if h : off >= i.lim then .ok ({ i with off := off, addNext := 0, t := tagEnd }, false)
   else do
@@ -75,12 +79,12 @@ def advanceIntoLoop (pj : PJ) (i : Iter) (off : Nat) : Res (Iter × Bool) :=
     let cur := payloadOf v
     if t == tagNop then
       if hc : payloadOf v == 0 then .ok (moveToEnd { i with off := off, cur := cur, t := t }, false)
-      else advanceIntoLoop pj i (off + (payloadOf v).toNat)
+      else advanceIntoLoop pj { i with cur := cur, t := t } (off + (payloadOf v).toNat)
     else .ok ({ i with off := off + 1, cur := cur, t := t }, true)
 termination_by i.lim - off
 decreasing_by
   have := u64_ne_zero_toNat hc
-  omega
+  simp_wf; omega
 
 /-- `AdvanceInto()` returns the `Tag`. -/
 def advanceInto (pj : PJ) (i : Iter) : Res (Iter × UInt8) := do
@@ -96,9 +100,11 @@ def advanceInto (pj : PJ) (i : Iter) : Res (Iter × UInt8) := do
 def type (i : Iter) : UInt8 :=
   if (i.off : Int) + i.addNext > i.lim then typeNone else tagToType i.t
 
-/-- The loop of `AdvanceIter`: `none` = reached the end exactly (`TypeNone, nil`). -/
-def advanceIterLoop (pj : PJ) (i : Iter) (off : Nat) : Res (Option Iter) :=
-  if off = i.lim then .ok none
+/-- The loop of `AdvanceIter`; registers threaded as in `advanceLoop`. `false` = the end of the view was
+    reached exactly (`TypeNone, nil`): the cursor then stands at `off = lim` with `addNext = 0`, `t = TagEnd` and
+    the payload of the last NOP word it skipped (its old payload if it skipped none). -/
+def advanceIterLoop (pj : PJ) (i : Iter) (off : Nat) : Res (Iter × Bool) :=
+  if off = i.lim then .ok ({ i with off := off, addNext := 0, t := tagEnd }, false)
   else if _h : off > i.lim then .error .generic
   else do
     let v ← rdT pj off
@@ -106,18 +112,18 @@ def advanceIterLoop (pj : PJ) (i : Iter) (off : Nat) : Res (Option Iter) :=
     let cur := payloadOf v
     if t == tagNop then
       if cur == 0 then .error .generic
-      else advanceIterLoop pj i (off + 1 + (cur.toNat - 1))
-    else .ok (some { i with off := off + 1, cur := cur, t := t })
+      else advanceIterLoop pj { i with cur := cur, t := t } (off + 1 + (cur.toNat - 1))
+    else .ok ({ i with off := off + 1, cur := cur, t := t }, true)
 termination_by i.lim - off
-decreasing_by omega
+decreasing_by simp_wf; omega
 
 /-- `AdvanceIter(dst)` with `dst ≠ i`: returns (i', dst, type). On the end of the scope `dst` is
     unchanged and the type is `TypeNone`. -/
 def advanceIter (pj : PJ) (i dst : Iter) : Res (Iter × Iter × UInt8) := do
   let o ← i.bump
-  match ← advanceIterLoop pj i o with
-  | none => .ok ({ i with off := o, addNext := 0, t := tagEnd }, dst, typeNone)
-  | some i1 =>
+  let (i1, live) ← advanceIterLoop pj i o
+  if !live then .ok (i1, dst, typeNone)
+  else
     let i2 := i1.calcNext false
     if i2.addNext < 0 then .error .generic
     else
